@@ -184,6 +184,15 @@ def stepState {B H : Type} (env : Env B H) (c : Codec H) (nl : Nat) :
     .inl (.msg (.attachment nl left' raw),
           { buffer := c.buffer.drop nl, state := if left' = 0 then .none else .attachment left' }, 0)
 
+/-- `buffer.reserve(to_read)`, zero fill, `read_exact` into the tail of the buffer
+(`none`: the stream ended first) -/
+def fill {H σ : Type} (ops : SockOps σ) (c : Codec H) (s : σ) (nl : Nat) : Option (Codec H × σ) :=
+  if nl - c.buffer.length > 0 then
+    match ops.rx (nl - c.buffer.length) s with
+    | some (x, s') => some ({ c with buffer := c.buffer ++ x }, s')
+    | none => none
+  else some (c, s)
+
 /-- the `loop` of `read_inner` -/
 def readLoop {B H σ : Type} (env : Env B H) (ops : SockOps σ) :
     Nat → Codec H → σ → Nat → Nat → ReadOut B H σ
@@ -191,20 +200,14 @@ def readLoop {B H σ : Type} (env : Env B H) (ops : SockOps σ) :
   | fuel+1, c, s, br, al =>
     let nl := nextLen env c.state
     let toRead := nl - c.buffer.length
-    -- `buffer.reserve(to_read)`, zero fill, `read_exact`
-    let filled : Option (Codec H × σ × Nat × Nat) :=
-      if toRead > 0 then
-        match ops.rx toRead s with
-        | some (x, s') => some ({ c with buffer := c.buffer ++ x }, s', br + toRead, al + toRead)
-        | none => none
-      else some (c, s, br, al)
-    match filled with
+    match fill ops c s nl with
     | none =>   -- `buffer.truncate(pre_len)`; `return Err(e.into())`
       { res := .err .conn, bytesRead := br, alloc := al + toRead, codec := c, sock := ops.drain s }
-    | some (c1, s1, br1, al1) =>
+    | some (c1, s1) =>
       match stepState env c1 nl with
-      | .inl (r, c2, a) => { res := r, bytesRead := br1, alloc := al1 + a, codec := c2, sock := s1 }
-      | .inr (c2, a) => readLoop env ops fuel c2 s1 br1 (al1 + a)
+      | .inl (r, c2, a) =>
+        { res := r, bytesRead := br + toRead, alloc := al + toRead + a, codec := c2, sock := s1 }
+      | .inr (c2, a) => readLoop env ops fuel c2 s1 (br + toRead) (al + toRead + a)
 
 /-- iterations one call can need: header, body prefix, and at most a batch of items -/
 def READ_FUEL : Nat := HEADER_BATCH_SIZE + 4
@@ -219,6 +222,13 @@ def expectAttachment {H : Type} (c : Codec H) (size : Nat) : Option (Codec H) :=
   | .none => some { c with state := .attachment size }
   | _ => none
 
+/-- what the reader thread does to the codec after a message: `expect_attachment` when the handler
+answered `Consumed::Attachment` (`none` = the `assert!` fired) -/
+def nextCodec {B H : Type} (attach : Message B H → Option Nat) (c : Codec H) (m : Message B H) : Option (Codec H) :=
+  match attach m with
+  | some size => expectAttachment c size
+  | none => some c
+
 /-- the reader thread of `conn::poll` as far as framing goes: read until the first error; after a
 message for which the handler answers `Consumed::Attachment(meta, _)` (`attach` = `meta.size`) call
 `expect_attachment`.  Returns the messages, how the loop ended, the final codec and socket. -/
@@ -229,10 +239,7 @@ def run {B H σ : Type} (env : Env B H) (ops : SockOps σ) (attach : Message B H
     let o := read env ops c s
     match o.res with
     | .msg m =>
-      let c' := match attach m with
-        | some size => (expectAttachment o.codec size)
-        | none => some o.codec
-      match c' with
+      match nextCodec attach o.codec m with
       | none => ([m], .panic .assertion, o.codec, o.sock)
       | some c' =>
         let (ms, e, cf, sf) := run env ops attach fuel c' o.sock
